@@ -96,18 +96,53 @@ def mat_np(np, m, ncols=None):
     return a
 
 
+def relayout(np, a, lay):
+    """the same array values in another memory layout: 0 as built (C order), 1 Fortran order, 2 a strided (non-contiguous)
+    view into a larger buffer, 3 a transposed view of the C-ordered transpose (F-contiguous, not owning its data)"""
+    a = np.asarray(a)
+    if lay == 1:
+        return np.asfortranarray(a)
+    if lay == 2:
+        big = np.zeros(tuple(2 * d for d in a.shape), dtype=a.dtype)
+        view = big[tuple(slice(None, None, 2) for _ in a.shape)]
+        view[...] = a
+        return view
+    if lay == 3 and a.ndim == 2:
+        return np.ascontiguousarray(a.T).T
+    return np.ascontiguousarray(a)
+
+
 def mk_obj(ttb, np, x):
+    """pyttb object of an operand literal.  Optional keys: sparse `origin` ('shape_only': sptensor(shape=...) for an operand without
+    stored entry; 'cancel': the operand arises from a computation, (S + T) - T with the auxiliary sparse tensor x['aux']);
+    Kruskal / Tucker `lay`: after construction the factor matrices are re-assigned in the given memory layout (as a user may do, or as
+    normalize / arrange leave them): list of layout codes, one per factor."""
     r = x["rep"]
     if r == "dense":
         return tgen.mk_tensor(ttb, np, x["shape"], x["data"])
     if r == "sparse":
-        return tgen.mk_sptensor(ttb, np, x["shape"], x["subs"], x["vals"])
+        org = x.get("origin")
+        if org == "shape_only" and not x["subs"]:
+            return ttb.sptensor(shape=tuple(x["shape"]))
+        S = tgen.mk_sptensor(ttb, np, x["shape"], x["subs"], x["vals"])
+        if org == "cancel":
+            T = tgen.mk_sptensor(ttb, np, x["shape"], x["aux"][0], x["aux"][1])
+            S = (S + T) - T
+            if not isinstance(S, ttb.sptensor):
+                raise TypeError("sptensor + sptensor - sptensor is not an sptensor")
+        return S
     if r == "k":
         R = len(x["weights"])
-        return ttb.ktensor([mat_np(np, f, R) for f in x["factors"]], np.array(x["weights"], dtype=float), copy=True)
+        K = ttb.ktensor([mat_np(np, f, R) for f in x["factors"]], np.array(x["weights"], dtype=float), copy=True)
+        for n, lay in enumerate(x.get("lay") or []):
+            K.factor_matrices[n] = relayout(np, K.factor_matrices[n], lay)
+        return K
     if r == "t":
         core = tgen.mk_tensor(ttb, np, x["core_shape"], x["core_data"])
-        return ttb.ttensor(core, [mat_np(np, f, c) for f, c in zip(x["factors"], x["core_shape"])], copy=True)
+        T = ttb.ttensor(core, [mat_np(np, f, c) for f, c in zip(x["factors"], x["core_shape"])], copy=True)
+        for n, lay in enumerate(x.get("lay") or []):
+            T.factor_matrices[n] = relayout(np, T.factor_matrices[n], lay)
+        return T
     if r == "sum":
         return ttb.sumtensor([mk_obj(ttb, np, p) for p in x["parts"]], copy=True)
     raise ValueError(r)
@@ -266,13 +301,19 @@ def rand_vec(rng, n, lo=-3, hi=3):
 def rand_k(rng, shape, R=None, unit=False):
     R = R or rng.randint(1, 2)
     w = [1] * R if unit else [rng.choice([-2, -1, 2, 3]) for _ in range(R)]
-    return X_k(w, [rand_matrix(rng, d, R, -1, 2) for d in shape])
+    x = X_k(w, [rand_matrix(rng, d, R, -1, 2) for d in shape])
+    if rng.random() < 0.5:          # factor matrices held C-ordered / as strided or transposed views (normalize, user assignment)
+        x["lay"] = [rng.randrange(4) for _ in shape]
+    return x
 
 
 def rand_t(rng, shape):
     cs = [rng.randint(1, 2) for _ in shape]
     core = tgen.rand_dense(rng, cs, 0.8, -2, 2)
-    return X_t(cs, core, [rand_matrix(rng, d, c, -1, 2) for d, c in zip(shape, cs)])
+    x = X_t(cs, core, [rand_matrix(rng, d, c, -1, 2) for d, c in zip(shape, cs)])
+    if rng.random() < 0.5:
+        x["lay"] = [rng.randrange(4) for _ in shape]
+    return x
 
 
 def family(rng, shape, fill=None):
@@ -309,3 +350,51 @@ def rand_sum(rng, shape):
                 subs, vals = tgen.dense_to_sparse(shape, data, rng, "random")
                 parts.append(X_sparse(shape, subs, vals))
     return X_sum(parts)
+
+
+def degenerate_sparse(rng, shape):
+    """sparse operands at the edge: no stored entry (built from empty arrays, built from the shape alone, arising from an exact
+    cancellation) and exactly one stored entry (built directly, arising from a cancellation)"""
+    n = math.prod(shape)
+    out = []
+    aux_d = tgen.rand_dense(rng, shape, 0.5)
+    if not any(aux_d):
+        aux_d[rng.randrange(n)] = 2
+    aux = list(tgen.dense_to_sparse(shape, aux_d, rng, "random"))
+    out.append(X_sparse(shape, [], []))
+    e = X_sparse(shape, [], []); e["origin"] = "shape_only"; out.append(e)
+    e = X_sparse(shape, [], []); e["origin"] = "cancel"; e["aux"] = aux; out.append(e)
+    for org in (None, "cancel"):
+        data = [0] * n
+        data[rng.randrange(n)] = rng.choice([-2, 3])
+        e = X_sparse(shape, *tgen.dense_to_sparse(shape, data))
+        if org:
+            e["origin"] = org; e["aux"] = aux
+        out.append(e)
+    return out
+
+
+def rand_t_struct(rng, shape, kind, wide=False):
+    """Tucker operands with structured INTEGER factors: 'selection' - every factor column is +-e_i, rows drawn with repetition (unit-length
+    columns that are not orthogonal: repeated columns coupled by the core); 'orthonormal' - distinct rows (signed partial permutation);
+    wide=True makes the core at least as large as the tensor (the other side of ttensor.norm's size switch: columns then repeat)."""
+    cs, factors = [], []
+    for d in shape:
+        c = rng.randint(d, d + 1) if wide else rng.randint(1, min(d, 2) if kind == "orthonormal" else 2)
+        if kind == "orthonormal" and c > d:
+            c = d
+        if kind == "orthonormal":
+            rows = rng.sample(range(d), c)
+        else:
+            rows = [rng.randrange(d) for _ in range(c)]
+            if c >= 2 and rng.random() < 0.7:
+                rows[1] = rows[0]                      # a repeated column
+        f = [[0] * c for _ in range(d)]
+        for col, rw in enumerate(rows):
+            f[rw][col] = rng.choice([1, 1, -1])
+        cs.append(c)
+        factors.append(f)
+    core = tgen.rand_dense(rng, cs, 1.0, -2, 2)
+    if not any(core):
+        core[0] = 1
+    return X_t(cs, core, factors)
